@@ -1844,6 +1844,12 @@ def _p_pointwise(name):
 
 
 def _p_arange(I, args, kw, node):
+    d = kw.get("dtype")
+    if d is not None and d != NONE:
+        wide = (d[0] == "mod" and d[1].split(".")[-1] in ("int32", "int64", "int_", "intp", "float64", "float_", "double")) or d in (("builtin", "int"), ("builtin", "float"))
+        if not wide:
+            # values enumerated in a narrow or runtime-chosen dtype wrap around silently: the dtype is part of what is listed
+            return ("app", "arange", tuple(args) + (("kw", "dtype", d),))
     return ("app", "arange", tuple(args))
 
 
